@@ -131,6 +131,15 @@ impl<B> BlockCursor<B> {
 }
 
 impl<B: Borrow<Block>> BlockCursor<B> {
+    /// Verification-only: (hash of the block bytes, in-block position).
+    #[cfg(grenad_verif)]
+    pub(crate) fn verif_state(&self) -> (u64, Option<usize>) {
+        use std::hash::{Hash, Hasher};
+        let mut hasher = std::collections::hash_map::DefaultHasher::new();
+        self.block.borrow().buffer.hash(&mut hasher);
+        (hasher.finish(), self.current_offset)
+    }
+
     /// Returns the currently pointed key/value or `None` if the cursor hasn't been seeked yet.
     pub fn current(&self) -> Option<(&[u8], &[u8])> {
         self.current_offset
